@@ -23,7 +23,18 @@ def analysis_contracts(run, total=False, extra_inv=None, extra_ensures=None):
         loops = {}
         for i, l in enumerate(repo.loops(fn)):
             inv = list(BASE_INV) + list((extra_inv or {}).get((cls, i), []))
-            loops[i] = dict(invariant=inv, modifies=list(CTX_FRAME), yields=True)
+            # local collections the loop body mutates (a de-duplication set of its own, an accumulator list) are part of what the cut havocs
+            own = []
+            for n_ in ast.walk(l):
+                if isinstance(n_, ast.Call) and isinstance(n_.func, ast.Attribute) and isinstance(n_.func.value, ast.Name) and \
+                        n_.func.attr in ("add", "append", "extend", "update", "insert", "pop", "remove", "discard", "clear", "setdefault") and \
+                        n_.func.value.id not in ("self", "context") and f"{n_.func.value.id}[]" not in own:
+                    assigned_before = any(isinstance(a_, (ast.Assign, ast.AnnAssign)) and getattr(a_, "lineno", 0) < l.lineno and
+                                          any(isinstance(t_, ast.Name) and t_.id == n_.func.value.id for t_ in ([a_.target] if isinstance(a_, ast.AnnAssign) else a_.targets))
+                                          for a_ in ast.walk(fn))
+                    if assigned_before:
+                        own.append(f"{n_.func.value.id}[]")
+            loops[i] = dict(invariant=inv, modifies=list(CTX_FRAME) + own, yields=True)
         c.loops = loops
         c.ensures = list(base.ensures) + list((extra_ensures or {}).get(cls, []))
         if total:
